@@ -230,6 +230,8 @@ def rule_ctx_store(prog, em):
     # wrappers between the evaluator and the direct writer: set_variable(name, value) -> set(name, Variable(value))
     for bid in sorted(cw - em._cw_direct):
         b = prog.by_id[bid]
+        if b.is_closure and b.j.get('parent') in em.reach:
+            continue        # a closure of an evaluator body (`handler(a, b).map(|v| { ctx.set_variable(name, v); .. })`): WCTX reads it inside the inlined evaluator
         calls = [c for c in b.live_calls if c.ruid in cw]
         key = 'CTXSTORE|wrap|%s' % b.name
         for c in calls:
@@ -262,6 +264,9 @@ def rule_ctx_store(prog, em):
         obs.append(bad('CTXSTORE', 'CTXSTORE|value', 'anchor lost: Context::value not found'))
     else:
         b = cv[0]
+        if not any(rv['k'] == 'agg' and rv.get('variant') == 'Ok' and pl['l'] in r_order._flows_to_return(b) for bb, i, pl, rv in b.assigns()):
+            # `self.get(name).map_or(Ok(Value::None), |entry| match entry { .. })`: read with the combinator opened
+            b = prog.view(b, keep=lambda g: True, tag='comb')
         lookups = [c for c in b.live_calls if c.term['dest']['ty'].startswith('std::option::Option<') and 'context::ContextValue' in c.term['dest']['ty']]
         key = 'CTXSTORE|value'
         problems = []
@@ -273,8 +278,9 @@ def rule_ctx_store(prog, em):
             if not (no is not None and no.kind == 'param' and no.data == 2 and not no.proj):
                 problems.append('the lookup does not use the name parameter unchanged')
             none_ok = var_ok = False
+            ret_locals = r_order._flows_to_return(b)
             for bb, i, pl, rv in b.assigns():
-                if pl['l'] == 0 and not pl['p'] and rv['k'] == 'agg' and rv.get('variant') == 'Ok':
+                if pl['l'] in ret_locals and not pl['p'] and rv['k'] == 'agg' and rv.get('variant') == 'Ok':
                     if _is_value_none(b, rv['ops'][0]):
                         none_ok = True
                         continue
@@ -312,6 +318,9 @@ def rule_ctx_store(prog, em):
                 n_reads += 1
                 key = 'CTXSTORE|refread|%s' % b.name
                 w = _absent_path_problem(prog, b, c)
+                if w and 'not matched on here' in w:
+                    r = _absent_in_comb_view(prog, b, c)
+                    w = w if r is False else (r or None)
                 if w:
                     obs.append(bad('CTXSTORE', key, 'reading a Reference node: ' + w, c.where(), body=b.name, bb=c.bb))
                 else:
@@ -321,12 +330,27 @@ def rule_ctx_store(prog, em):
         lookups = [c for c in b.live_calls if c.term['dest']['ty'].startswith('std::option::Option<') and 'context::ContextValue' in c.term['dest']['ty']]
         if len(lookups) == 1:
             w = _absent_path_problem(prog, b, lookups[0])
+            if w and 'not matched on here' in w:
+                r = _absent_in_comb_view(prog, b, lookups[0])
+                w = w if r is False else (r or None)
             if w:
                 obs.append(bad('CTXSTORE', 'CTXSTORE|value-absent', 'Context::value: ' + w, b.where(), body=b.name))
             else:
                 obs.append(ok('CTXSTORE', 'CTXSTORE|value-absent', 'Context::value: when the name is absent the only outcome is Ok(None), and nothing is called or consulted on the way', b.where()))
     obs.append(floor('CTXSTORE', 'reference-read-sites', n_reads, 1, 'a Reference node must read the context somewhere in the evaluator'))
     return obs
+
+
+def _absent_in_comb_view(prog, b, lk):
+    """the same question on the body read with the std combinators it hands closures to opened
+    (`self.get(name).map_or(Ok(Value::None), |entry| ..)`): a complaint, '' when fine, False when there is no such view"""
+    v = prog.view(b, keep=lambda g: True, tag='comb')
+    if v is b or lk.bb >= len(v.blocks) or v.blocks[lk.bb]['term']['k'] != 'call':
+        return False
+    vc = v.call_at(lk.bb)
+    if vc is None or vc.ruid != lk.ruid:
+        return False
+    return _absent_path_problem(prog, v, vc) or ''
 
 
 def _absent_path_problem(prog, b, lk):
@@ -369,6 +393,11 @@ def _absent_path_problem(prog, b, lk):
         for st_ in blk['stmts']:
             if st_['k'] == 'assign' and st_['pl']['l'] == 0:
                 rv = st_['rv']
+                if rv['k'] == 'use' and not st_['pl']['p']:
+                    # `_0 = move tmp` with tmp = Ok(Value::None) built earlier (the default argument of an opened `map_or`)
+                    o = single_origin(trace_operand(b, rv['op'], through_calls=set()))
+                    if o is not None and o.kind == 'agg' and not o.proj and o.data[2].get('variant') == 'Ok' and _is_value_none(b, o.data[2]['ops'][0]):
+                        continue
                 if st_['pl']['p'] or not (rv['k'] == 'agg' and rv.get('variant') == 'Ok' and _is_value_none(b, rv['ops'][0])):
                     return 'an absent name yields something other than Ok(None)'
         t = blk['term']
